@@ -1,58 +1,45 @@
-// Harness C08: slice primitives equal their scalar definitions.
+// Harness C08: slice primitives equal their scalar definitions in every
+// build configuration. See NOTES.md for what is covered and how.
 package main
 
-import (
-	"fmt"
-
-	"gonum.org/v1/gonum/internal/asm/f64"
-	"gonum.org/v1/gonum/internal/verif/vlib"
-)
+import "gonum.org/v1/gonum/internal/verif/vlib"
 
 func main() {
-	vlib.Main("C08", vlib.Group{Name: "f64-axpy-unitary", Gen: genAxpyUnitary})
-}
-
-// carve returns a slice of length n at offset off inside a poisoned backing array.
-func carve(n, off int) (backing, s []float64) {
-	backing = make([]float64, n+off+9)
-	vlib.FillPoison64(backing)
-	return backing, backing[off : off+n : off+n]
-}
-
-func genAxpyUnitary(g *vlib.G) {
-	maxN := vlib.Pick(g, 40, 70)
-	for n := 0; n <= maxN; n++ {
-		for off := 0; off < 8; off++ {
-			for _, alpha := range []float64{0, 1, -1, 2, 0.5} {
-				n, off, alpha := n, off, alpha
-				g.Case(fmt.Sprintf("n=%d off=%d alpha=%v", n, off, alpha), func(t *vlib.T) {
-					bx, x := carve(n, off)
-					by, y := carve(n, (off+3)%8)
-					want := make([]float64, n)
-					for i := range x {
-						x[i] = float64(i%7 - 3)
-						y[i] = float64(i%5 - 2)
-						want[i] = alpha*x[i] + y[i]
-					}
-					bx0 := append([]float64(nil), bx...)
-					by0 := append([]float64(nil), by...)
-					f64.AxpyUnitary(alpha, x, y)
-					if i, ok := vlib.Same64(y, want); !ok {
-						t.Failf("y[%d]=%v want %v", i, y[i], want[i])
-					}
-					if i, ok := vlib.Same64(bx, bx0); !ok {
-						t.Failf("x backing modified at %d", i)
-					}
-					copy(by0[(off+3)%8:], want)
-					if i, ok := vlib.Same64(by, by0); !ok {
-						t.Failf("y backing modified outside window at %d", i)
-					}
-					if n >= 2 {
-						t.Nontrivial()
-					}
-					t.Outcome(fmt.Sprintf("n%%8=%d", n%8))
-				})
-			}
-		}
-	}
+	vlib.Main("C08",
+		vlib.Group{Name: "f64-unitary", Gen: genUnitary(f64Table())},
+		vlib.Group{Name: "f32-unitary", Gen: genUnitary(f32Table())},
+		vlib.Group{Name: "c128-unitary", Gen: genUnitary(c128Table())},
+		vlib.Group{Name: "c64-unitary", Gen: genUnitary(c64Table())},
+		vlib.Group{Name: "f64-inc", Gen: genInc(f64Table())},
+		vlib.Group{Name: "f32-inc", Gen: genInc(f32Table())},
+		vlib.Group{Name: "c128-inc", Gen: genInc(c128Table())},
+		vlib.Group{Name: "c64-inc", Gen: genInc(c64Table())},
+		vlib.Group{Name: "floats-elem", Gen: genUnitary(floatsTable())},
+		vlib.Group{Name: "cmplxs-elem", Gen: genUnitary(cmplxsTable())},
+		vlib.Group{Name: "floats-bounds", Gen: genBounds(floatsTable())},
+		vlib.Group{Name: "cmplxs-bounds", Gen: genBounds(cmplxsTable())},
+		vlib.Group{Name: "floats-special-lane", Gen: genLaneSpecials(floatsTable(), specials64())},
+		vlib.Group{Name: "floats-special-red", Gen: genReductionSpecials(floatsTable(), specials64())},
+		vlib.Group{Name: "floats-order", Gen: genFloatsOrder},
+		vlib.Group{Name: "floats-span", Gen: genFloatsSpan},
+		vlib.Group{Name: "floats-within", Gen: genFloatsWithin},
+		vlib.Group{Name: "floats-logsumexp", Gen: genFloatsLogSumExp},
+		vlib.Group{Name: "cmplxs-misc", Gen: genCmplxsMisc},
+		vlib.Group{Name: "cmplxs-span", Gen: genCmplxsSpan},
+		vlib.Group{Name: "scalar", Gen: genScalar},
+		vlib.Group{Name: "scalar-round", Gen: genScalarRound},
+		vlib.Group{Name: "spatial", Gen: genSpatial},
+		vlib.Group{Name: "spatial-triangles", Gen: genSpatialTriangles},
+		vlib.Group{Name: "f64-ge", Gen: genGe(geF64())},
+		vlib.Group{Name: "f32-ge", Gen: genGe(geF32())},
+		vlib.Group{Name: "f64-bounds", Gen: genBounds(f64Table())},
+		vlib.Group{Name: "f32-bounds", Gen: genBounds(f32Table())},
+		vlib.Group{Name: "c128-bounds", Gen: genBounds(c128Table())},
+		vlib.Group{Name: "c64-bounds", Gen: genBounds(c64Table())},
+		vlib.Group{Name: "dlassq", Gen: genDlassq},
+		vlib.Group{Name: "f64-special-lane", Gen: genLaneSpecials(f64Table(), specials64())},
+		vlib.Group{Name: "f32-special-lane", Gen: genLaneSpecials(f32Table(), specials32())},
+		vlib.Group{Name: "f64-special-red", Gen: genReductionSpecials(f64Table(), specials64())},
+		vlib.Group{Name: "f32-special-red", Gen: genReductionSpecials(f32Table(), specials32())},
+	)
 }
